@@ -270,16 +270,19 @@ CHECKS["C14"] = {
 }
 
 CHECKS["C15"] = {
-    "explanation": "Symbolic execution of Mailbox.Search (sequential branch), buildSearchOp* for flag / keyword / size / UID-set / sequence-set / internal-date keys and NOT / OR / list / juxtaposition, applySearch, buildSearchData and interval resolution on a view with strictly ascending symbolic UIDs, symbolic sizes and dates and chosen flag sets; the result is compared message by message with a reference evaluator of the same symbolically chosen key tree. Set keys with two ranges whose four ends are symbolic (nested, overlapping, reversed) for UID and sequence sets.",
+    "explanation": "Symbolic execution of Mailbox.Search (sequential branch), buildSearchOp* for flag / keyword / size / UID-set / sequence-set / internal-date keys and NOT / OR / list / juxtaposition, applySearch, buildSearchData and interval resolution on a view with strictly ascending symbolic UIDs, symbolic sizes and dates and chosen flag sets; the result is compared message by message with a reference evaluator of the same symbolically chosen key tree. Set keys with two ranges whose four ends are symbolic (nested, overlapping, reversed) for UID and sequence sets. VerifC15Text: SUBJECT / FROM / TO / BODY / TEXT / HEADER (present and missing field, empty value) and BEFORE / ON / SINCE / SENTBEFORE / SENTON / SENTSINCE, each optionally under NOT, on two messages chosen from a pool of concrete literals (different header dates and zones, internal dates around midnight), needles from a pool (case variants, empty, absent): compared with case-insensitive substring matching and calendar-day comparison.",
     "harnesses": [
         {"name": "search", "pkg": "internal/state", "pkgname": "state", "entry": "VerifC15Search",
          "files": ["zz_verif_c15.go", "zz_verif_c17.go"] + STATE_FILES, "with": ["verifdb"], "gen_stubs": [TX_STUB],
          "params": {"quick": grid(n=[1, 2], depth=[0], sets=[0], comp=[0]) + grid(n=[2, 3], depth=[0], sets=[1], comp=[0]) + grid(n=[1], depth=[1], sets=[0], comp=[1]),
                     "thorough": grid(n=[1, 2, 3], depth=[0], sets=[0], comp=[0]) + grid(n=[1, 2], depth=[1], sets=[0], comp=[2]) + grid(n=[2, 3, 4], depth=[0], sets=[1], comp=[0])},
          "cover": ["search-ok"]},
+        {"name": "text", "pkg": "internal/state", "pkgname": "state", "entry": "VerifC15Text",
+         "files": ["zz_verif_c15.go", "zz_verif_c17.go"] + STATE_FILES, "with": ["verifdb"], "gen_stubs": [TX_STUB],
+         "params": {"quick": [{}], "thorough": [{}]}, "cover": ["text-search"]},
     ],
     "stubs": ["internal/verifdb relational model", "runtime.NumCPU -> 1 / parallelism disabled (sequential branch of parallel.DoContext)"],
-    "outside": ["header/body text keys (FROM, SUBJECT, BODY, TEXT, HEADER) and charset decoding", "SENT* keys", "ON / SINCE (calendar arithmetic through time.Date)", "the parallel branch"],
+    "outside": ["text keys beyond the concrete message / needle pools of the text harness (BCC, CC, encoded words, charset decoding)", "internal dates with a non-UTC zone (how SQLite returns them is C08)", "the parallel branch"],
     "assumptions": ["view UIDs strictly ascending and non-zero"],
 }
 
@@ -289,7 +292,7 @@ CHECKS["C10"] = {
     "explanation": "The harnesses are printers: each builds the byte string of a command from an abstract command whose leaves are symbolic (tag bytes, letter case of every keyword character, each string argument in atom / quoted / literal encoding with symbolic payload bytes, digit strings, sequence sets, flag lists, fetch attributes with sections and partials, search-key trees, dates and date-times, optional short reads), feeds it through command.Parser.Parse (real go/ssa of imap/command and rfcparser) and compares the parsed command with the abstract one, field by field.  Families: string/mailbox commands (LOGIN, SELECT, EXAMINE, CREATE, DELETE, SUBSCRIBE, UNSUBSCRIBE, RENAME, COPY, MOVE, STATUS), FETCH, STORE, SEARCH, APPEND, LIST/LSUB/ID/UID EXPUNGE and the commands without arguments; UID prefixes.  The dimensions (letter case, tag, encodings, set numbers, chunking) are made symbolic one family at a time, not as one product.",
     "harnesses": [
         {"name": "strings", "pkg": "imap/command", "pkgname": "command", "entry": "VerifC10Strings", "files": C10_FILES,
-         "params": {"quick": grid(cmd=[1], symcase=[1], symtag=[0], len=[1], chunked=[0]) + grid(cmd=[1], symcase=[0], symtag=[1], len=[1], chunked=[0]) + grid(cmd=[1], symcase=[0], symtag=[0], len=[1, 2, 3], chunked=[0]) + grid(cmd=[0], symcase=[0], symtag=[0], len=[1], chunked=[0]) + grid(cmd=[8], symcase=[0], symtag=[0], len=[1], chunked=[0], bigset=[0, 1]) + grid(cmd=[1], symcase=[0], symtag=[0], len=[2], chunked=[1]), "thorough": grid(cmd=[-1], symcase=[0,1], symtag=[0], len=[1, 2, 3, 5], chunked=[0, 1])},
+         "params": {"quick": grid(cmd=[1], symcase=[1], symtag=[0], len=[1], chunked=[0]) + grid(cmd=[1], symcase=[0], symtag=[1], len=[1], chunked=[0]) + grid(cmd=[1], symcase=[0], symtag=[0], len=[1, 2, 3], chunked=[0]) + grid(cmd=[0], symcase=[0], symtag=[0], len=[1], chunked=[0]) + grid(cmd=[8], symcase=[0], symtag=[0], len=[1], chunked=[0], bigset=[0, 1]) + grid(cmd=[1], symcase=[0], symtag=[0], len=[2], chunked=[1]), "thorough": grid(cmd=list(range(11)), symcase=[1], symtag=[0, 1], len=[1], chunked=[0]) + grid(cmd=[0, 1, 7, 8, 10], symcase=[0], symtag=[0], len=[2, 3], chunked=[0, 1]) + grid(cmd=[1], symcase=[0], symtag=[0], len=[5], chunked=[0, 1]) + grid(cmd=[8, 9], symcase=[0], symtag=[0], len=[1], chunked=[0], bigset=[1])},
          "summarise": SCAN_SUMMARISE, "cover": []},
         {"name": "fetch", "pkg": "imap/command", "pkgname": "command", "entry": "VerifC10Fetch", "files": C10_FILES,
          "params": {"quick": grid(natt=[0, 1], fam=[0], symcase=[1]) + grid(natt=[1], fam=[1], flen=[0], symcase=[1]), "thorough": grid(natt=[0, 1, 2], fam=[0], symcase=[1], symset=[0, 1]) + grid(natt=[1], fam=[1], flen=[0, 1, 2], symcase=[0, 1]) + grid(natt=[2], fam=[1], flen=[0], symcase=[0])},
